@@ -261,7 +261,7 @@ fn replay(beh: &Value, line: usize, m: &Map, rep: &mut Report, observe: &str) {
     // "times": presence and timestamps of everything, values ignored (C03)
     // "ret": only what following is about (C15): return values, and the own slots after an update that a followed getter's error aborted
     let ret_only = observe == "ret";
-    let (ob_state, ob_cmd, ob_data) = (observe != "cmd" && !ret_only, observe != "state" && !ret_only, observe == "all" || observe == "times");
+    let (ob_state, ob_cmd, ob_data) = (observe != "cmd" && !ret_only, observe != "state" && !ret_only, observe == "all");     // (the combined read carries the STATE's time by C09's own clause, not the latest one: not a C03 matter)
     let scen = &beh["scen"];
     let steps = beh["steps"].as_array().unwrap();
     let mag = if observe == "times" { 1e300 } else { magnitude(beh) * 2f64.powi(m.scale_pow2) };
